@@ -596,6 +596,7 @@ func c20(r *hx.Run) {
 		{"CD|unpub|1ver", [][]string{{"C", "D0", "U01"}, {"C", "R01", "D1"}}, true, false, 2},
 		{"FE|nounpub|2ver", [][]string{{"C", "Ujson", "U12"}, {"C", "Ualias", "U12"}}, false, true, 2},
 		{"BE|unpub|2ver", [][]string{{"C", "U01", "R01", "V01"}, {"C", "Ualias"}}, true, true, 2},
+		{"DC|nounpub|1ver", [][]string{{"C", "R01", "D1"}, {"C", "D0", "U01"}}, false, false, 2},
 	}
 	depth := 8
 	if r.Tier == "thorough" {
@@ -614,7 +615,7 @@ func c20(r *hx.Run) {
 			break
 		}
 		pools := []*fx.Pool{c20Pool(0, fx.Ed25519), c20Pool(1, fx.Ed25519)}
-		if strings.HasPrefix(cfg.Name, "CD") {
+		if strings.HasPrefix(cfg.Name, "CD") || strings.HasPrefix(cfg.Name, "DC") {
 			pools[1] = c20Pool(1, fx.P256)
 		}
 		if r.Only != "" {
